@@ -30,6 +30,12 @@ class BasicZoneProcessorTest_createAbbreviation;
 class BasicZoneProcessorTest_calcStartDayOfMonth;
 class BasicZoneProcessorTest_calcRuleOffsetMinutes;
 
+#if ACE_TIME_VERIF_HOOKS
+// Verification hook (off by default): called when a Transition is dropped
+// because the cache of BasicZoneProcessor is full.
+extern "C" void aceTimeVerifBasicTransitionDropped();
+#endif
+
 namespace ace_time {
 
 template<uint8_t SIZE, uint8_t TYPE, typename ZS, typename ZI, typename ZIB>
@@ -737,6 +743,11 @@ class BasicZoneProcessor: public ZoneProcessor {
      */
     void addTransition(int8_t yearTiny, uint8_t month, basic::ZoneEraBroker era,
           basic::ZoneRuleBroker rule) const {
+    #if ACE_TIME_VERIF_HOOKS
+      if (mNumTransitions >= kMaxCacheEntries) {
+        aceTimeVerifBasicTransitionDropped();
+      }
+    #endif
 
       // If a zone needs more transitions than kMaxCacheEntries, the check below
       // will cause the DST transition information to be inaccurate, and it is
